@@ -507,6 +507,16 @@ func keyFromRangeOver(key ssa.Value, m ssa.Value) bool {
 						owner = fa.X
 					}
 				}
+				// the helper is handed the map itself and ranges over that parameter
+				for ai, a := range hc.Common().Args {
+					if ai < len(callee.Params) && sameExpr(a, m) {
+						eachInstr(callee, func(in ssa.Instruction) {
+							if rg, ok := in.(*ssa.Range); ok && rg.X == ssa.Value(callee.Params[ai]) {
+								hasRange = true
+							}
+						})
+					}
+				}
 				if owner != nil && sameValue(hc.Common().Args[0], owner) {
 					eachInstr(callee, func(in ssa.Instruction) {
 						if rg, ok := in.(*ssa.Range); ok {
